@@ -121,6 +121,30 @@ def check_codec(ctx, rep, wq, rq, label, expect_all_fields):
         rep.oblige(("R2", label, "restored", k), ok, sample={"codec": label, "key": k, "restored into": sorted(sinks)})
         if not ok:
             rep.add("R2", rfi.qname, sub, f"the value saved under '{k}' is restored into {sorted(sinks) or 'nothing'} instead of {f}", rfi.loc(sub))
+        # the restoration may depend on the saved value only (None / emptiness tests of it), not on other state
+        if bv is not None:
+            from ..condeval import enclosing_ifs
+            derived = {bv}
+            for n in ast.walk(rfi.node):
+                if isinstance(n, ast.For) and isinstance(n.iter, ast.Name) and n.iter.id in derived and isinstance(n.target, ast.Name):
+                    derived.add(n.target.id)
+            for n in ast.walk(rfi.node):
+                is_sink = False
+                if isinstance(n, ast.Call) and isinstance(n.func, ast.Attribute) and n.func.attr in ("add_namespace", "add_attribute", "add_extras", "add_child") \
+                        and any(isinstance(x, ast.Name) and x.id in derived for a in n.args for x in ast.walk(a)):
+                    is_sink = True
+                if isinstance(n, ast.Assign) and any(isinstance(t, ast.Attribute) and nm.canon(t.attr) == f for t in n.targets) \
+                        and any(isinstance(x, ast.Name) and x.id in derived for x in ast.walk(n.value)):
+                    is_sink = True
+                if not is_sink:
+                    continue
+                for (g, _b) in enclosing_ifs(rfi, n):
+                    names = {x.id for x in ast.walk(g.test) if isinstance(x, ast.Name)} - {"None", "True", "False", "len", "isinstance", "str", "dict", "list"}
+                    okg = names <= derived
+                    rep.oblige(("R2", label, "guard", k, norm(g.test)[:40]), okg)
+                    if not okg:
+                        rep.add("R2", rfi.qname, g.test, f"whether the saved '{k}' is restored depends on `{', '.join(sorted(names - derived))}`, not only on "
+                                f"the saved value: some trees do not reload exactly", rfi.loc(g))
     for k in keys:
         if k and k not in seen:
             rep.oblige(("R1", label, "unread", k), False)
@@ -148,6 +172,49 @@ def check_codec(ctx, rep, wq, rq, label, expect_all_fields):
         rep.add("R3", rfi.qname, "add_child(child_node)", "loaded children are not all appended, in order, through add_child (which sets the parent link)",
                 rfi.loc())
     return keys
+
+
+def rule_r5(ctx, rep):
+    """the loader restores fields through setters while a tree may have been built through the constructor: for every
+    field with both, the stored transformation must be the same (else a value exists that does not reload as itself)"""
+    nm = ctx.world.nm
+    init = nm.ci.methods["__init__"]
+    selfp = init.params[0]
+    for prop, fi in sorted(nm.ci.setters.items()):
+        f = nm.setter_field.get(prop)
+        if f is None:
+            continue
+        sval = None
+        for n in ast.walk(fi.node):
+            if isinstance(n, ast.Assign) and any(isinstance(t, ast.Attribute) and t.attr == f for t in n.targets):
+                sval = n.value
+        ival, ip = None, None
+        for n in ast.walk(init.node):
+            if isinstance(n, ast.Assign) and any(isinstance(t, ast.Attribute) and t.attr == f and isinstance(t.value, ast.Name) and t.value.id == selfp for t in n.targets):
+                ival = n.value
+        if sval is None or ival is None:
+            continue
+        iparams = [x.id for x in ast.walk(ival) if isinstance(x, ast.Name) and x.id in init.params[1:]]
+        sparams = [x.id for x in ast.walk(sval) if isinstance(x, ast.Name) and x.id in fi.params[1:]]
+        if len(set(iparams)) != 1 or len(set(sparams)) != 1:
+            continue  # the field is not initialised from a single constructor argument
+        import copy as _c
+
+        class Ren(ast.NodeTransformer):
+            def __init__(self, a):
+                self.a = a
+
+            def visit_Name(self, n):
+                return ast.Name(id="V", ctx=n.ctx) if n.id == self.a else n
+        a = ast.dump(Ren(iparams[0]).visit(_c.deepcopy(ival)))
+        b = ast.dump(Ren(sparams[0]).visit(_c.deepcopy(sval)))
+        rep.count("constructor/setter pairs")
+        ok = a == b
+        rep.oblige(("R5", f), ok, sample={"field": f, "constructor stores": norm(ival), "setter stores": norm(sval)})
+        if not ok:
+            rep.add("R5", fi.qname, sval, f"the constructor stores `{norm(ival)}` but the {prop} setter stores `{norm(sval)}`: a value that only the "
+                    f"constructor can produce does not survive save/load (the loader restores through the setter)", fi.loc())
+    rep.floor("constructor/setter pairs", 3)
 
 
 def rule_r4(ctx, rep, current, legacy):
@@ -204,10 +271,13 @@ def rule_r4(ctx, rep, current, legacy):
         rep.add("R4", fi.qname, "children lookup", "the upgrade does not descend into the children", fi.loc())
     rec = [n for n in ast.walk(fi.node) if isinstance(n, ast.Call) and isinstance(n.func, ast.Name) and n.func.id == fi.name]
     rec_ok = False
+    from ..condeval import enclosing_ifs
     for n in ast.walk(fi.node):
         if isinstance(n, ast.For) and any(any(x is r for x in ast.walk(n)) for r in rec) and n is not body_loop:
             bad = [x for x in ast.walk(n) if isinstance(x, (ast.Break, ast.Continue, ast.If, ast.Return))]
-            rec_ok = not bad
+            conds = enclosing_ifs(fi, n)
+            skips = [x for st_ in body_loop.body if st_ is not n for x in ast.walk(st_) if isinstance(x, (ast.Continue, ast.Break, ast.Return))]
+            rec_ok = not bad and not conds and not skips
     rep.oblige(("R4", "recursion"), rec_ok)
     if not rec_ok:
         rep.add("R4", fi.qname, "recursion over children", "the upgrade does not convert every child", fi.loc())
@@ -221,7 +291,7 @@ def run(ctx, rep):
         "property and the value read back must flow into the same field (constructor argument, setter or add_* method); loaded "
         "children reach add_child; the legacy upgrade's constant-index inserts are executed abstractly on the legacy layout and "
         "must yield the current one with empty defaults")
-    rep.rules_run = ["R1", "R2", "R3", "R4"]
+    rep.rules_run = ["R1", "R2", "R3", "R4", "R5"]
     rep.assumptions += ["NOT decided: byte-identical re-serialisation and Unicode fidelity (json library), replay of namespace maps by add_namespace (C13)"]
     cur = check_codec(ctx, rep, MIO + "._serialize", MIO + "._from_dict", "current", True)
     leg = check_codec(ctx, rep, MPIO + ".objectify", MPIO + ".from_json", "legacy", False)
@@ -238,6 +308,7 @@ def run(ctx, rep):
             rep.add("R1", q, "codec call", f"{q.rsplit('.', 1)[-1]} does not go through {inner.rsplit('.', 1)[-1]}", fi.loc())
     if all(k for k in cur) and all(k for k in leg):
         rule_r4(ctx, rep, cur, leg)
+    rule_r5(ctx, rep)
     rep.floor("current: writer slots", 8)
     rep.floor("current: reader slots", 8)
     rep.floor("legacy: writer slots", 4)
